@@ -48,7 +48,12 @@ pub fn gen_input<F: Family>(t: &mut Tape, cfg: &GenCfg) -> (Vec<u8>, &'static st
         2 => {
             let mut w = F::project(&p);
             mutate::respell(&mut w, t, true);
-            (serialize(&w).unwrap_or(enc), "respelled")
+            let mut out = serialize(&w).unwrap_or(enc);
+            if t.chance(1, 4) {
+                let other = valid_bytes::<F>(t, &GenCfg::SMALL).map(|x| x.1).unwrap_or_default();
+                out.extend_from_slice(&other);
+            }
+            (out, "respelled")
         }
         3 => {
             let mut w = F::project(&p);
@@ -92,6 +97,18 @@ pub fn gen_input<F: Family>(t: &mut Tape, cfg: &GenCfg) -> (Vec<u8>, &'static st
             }
             if t.chance(1, 4) {
                 let _ = mutate::byte_mutate(&mut out, &enc, t);
+            }
+            if t.chance(1, 3) {
+                // the stream goes on behind the malformed frame (another packet, or a few arbitrary bytes): a decoder that
+                // does not stop at the frame end reads on into it
+                if t.flag() {
+                    let other = valid_bytes::<F>(t, &GenCfg::SMALL).map(|x| x.1).unwrap_or_default();
+                    out.extend_from_slice(&other);
+                } else {
+                    for _ in 0..1 + t.pick(5) {
+                        out.push(t.u8());
+                    }
+                }
             }
             (out, "catalogue")
         }
